@@ -96,7 +96,8 @@ class Check:
             path = os.path.join(OUT_DIR, f"{self.pid}-{key[:40]}-{len(self.violations)}-{os.getpid()}.json")
             path = re.sub(r"[^A-Za-z0-9_./-]", "_", path)
             with open(path, "w") as f:
-                json.dump({"property": self.pid, "key": key, "what": what, "case": replay_obj}, f)
+                json.dump({"property": self.pid, "key": key, "what": what, "seed": self.seed, "tier": self.tier,
+                           "case": replay_obj}, f)
         self.violations.append({"key": key, "what": what, "replay": path})
 
     # ---- finish
@@ -145,9 +146,26 @@ def main_wrapper(fn, pid: str, argv: list[str]) -> int:
                     choices=["quick", "thorough"])
     ap.add_argument("--replay", default=None)
     a = ap.parse_args(argv)
+    want_key = None
+    if a.replay:
+        # a replay file names the failing case and the seed/tier of the run that found it.  Checks that
+        # can re-run the single case do so (C01/C02); for the others the run is repeated with the recorded
+        # seed and tier, and the replay succeeds in reproducing iff the same finding key comes back.
+        with open(a.replay) as f:
+            rep = json.load(f)
+        if rep.get("property") != pid:
+            print(f"replay file is for {rep.get('property')}, not {pid}", file=sys.stderr)
+            return 2
+        if pid not in ("C01", "C02"):
+            os.environ["VERIF_SEED"] = str(rep.get("seed", 0))
+            a.tier = rep.get("tier", a.tier)
+            want_key, a.replay = rep.get("key"), None
     chk = Check(pid, a.tier)
     try:
         fn(chk, a.replay)
+        if want_key is not None:
+            keys = {v["key"] for v in chk.violations}
+            print(f"replay of [{want_key}]: {'reproduced' if want_key in keys else 'NOT reproduced'}")
         return chk.finish()
     except Exception as e:  # noqa: BLE001
         traceback.print_exc()
